@@ -236,8 +236,8 @@ PROPS = {
                  "independent oracle: unauthorised => error and no store write (all KV/transient stores of the cache context compared with the parent).",
  },
  "C06": {
-  "modules": ["OsmoVerif.Props.C06"],
-  "min_theorems": 28,
+  "modules": ["OsmoVerif.Props.C06", "OsmoVerif.Props.TieGenLockupOps"],
+  "min_theorems": 61,
   "fingerprints": [],
   "engines": [{"name": "lockup", "kind": "app", "n": {"quick": 4000, "thorough": 40000}, "shards": {"quick": 4, "thorough": 16}, "env": NO_EXPORT_IMPORT}],
   "rule": "histories of 25-115 transactions: 3 owners (+ a stranger), 3 denominations (+ 1-2 CL share denominations cl/pool/<id> in a third of the histories), "
